@@ -74,7 +74,7 @@ PROPS = {
     },
     'C09': {
         'units': ['encode', 'layout', 'decode', 'builder', 'bytesio'],
-        'kani': ['read_le','unpack_le','to_le_bytes_spec','pack_roundtrip','common_tables','index_table_loop','common_tables_pinned'],
+        'kani': ['read_le','unpack_le','to_le_bytes_spec','pack_roundtrip','common_tables','common_tables_pinned'],
         'own': {'builder': r'Builder::(compile|compile_from|new_type|new|into_inner|insert_output)$'},
         'level_text': 'Proof: encoder and decoder are verified against one forward-layout specification written from the format description '
                       '(header 3 + type; the three node forms; state byte; sizes nibbles; reverse transition order; index iff more than 32 '
@@ -82,7 +82,7 @@ PROPS = {
                       'checksum), so a change made consistently to writer and reader still fails. Builder::compile writes a node only at '
                       'count(), never writes the empty-final node or a resident node, every transition target is an earlier emitted address '
                       'or 0; nodes tile the body because graph(body) is defined by parsing it backwards node by node.',
-        'level_note': 'The common-input tables and the 256-entry index loop are assumed contracts (Kani K-tables / K-scan).',
+        'level_note': 'The common-input tables are an assumed contract (Kani K-tables, complete). The loop that fills the 256-entry index is verified in place (rule R21: enumerate as a counter).',
         'explanation': '',
         'assumptions': [],
     },
